@@ -502,13 +502,26 @@ Proof.
   apply Z.leb_gt in E. lia.
 Qed.
 
+Lemma rne53_unfold n : 0 < bitlen n - 53 ->
+  rne53 n =
+  let s := bitlen n - 53 in
+  let q := n / 2 ^ s in
+  let r := n - q * 2 ^ s in
+  (if (2 ^ (s - 1) <? r) || ((r =? 2 ^ (s - 1)) && Z.odd q) then q + 1 else q) * 2 ^ s.
+Proof.
+  intros Hs. unfold rne53. destruct (bitlen n - 53 <=? 0) eqn:Es; [apply Z.leb_le in Es; lia|].
+  rewrite Z.shiftr_div_pow2 by lia.
+  rewrite !Z.shiftl_mul_pow2 by lia. rewrite !Z.mul_1_l. reflexivity.
+Qed.
+
 Lemma rne53_nonneg n : 0 <= n -> 0 <= rne53 n.
 Proof.
-  intros H. unfold rne53. destruct (bitlen n - 53 <=? 0) eqn:Es; [exact H|].
-  apply Z.leb_gt in Es. set (s := bitlen n - 53) in *.
-  assert (Hp : 0 < 2 ^ s) by (apply Z.pow_pos_nonneg; lia).
-  assert (Hq : 0 <= n / 2 ^ s) by (apply Z.div_pos; lia).
-  destruct (_ || _); apply Z.mul_nonneg_nonneg; lia.
+  intros H. destruct (Z_le_gt_dec (bitlen n - 53) 0) as [Hs|Hs].
+  - rewrite rne53_small by lia. exact H.
+  - rewrite rne53_unfold by lia. cbv zeta. set (s := bitlen n - 53) in *.
+    assert (Hp : 0 < 2 ^ s) by (apply Z.pow_pos_nonneg; lia).
+    assert (Hq : 0 <= n / 2 ^ s) by (apply Z.div_pos; lia).
+    destruct (_ || _); apply Z.mul_nonneg_nonneg; lia.
 Qed.
 
 (* the rounded product w * u stays strictly below w: the distance w from
@@ -517,10 +530,11 @@ Lemma rne53_mul_lt w k : 1 <= w < two53 -> 0 <= k < two53 -> rne53 (w * k) < w *
 Proof.
   intros Hw Hk. set (x := w * k).
   assert (Hx : 0 <= x <= w * two53 - w) by (unfold x; nia).
-  unfold rne53. set (s := bitlen x - 53).
-  destruct (s <=? 0) eqn:Es; [lia|]. apply Z.leb_gt in Es.
+  destruct (Z_le_gt_dec (bitlen x - 53) 0) as [Hs|Hs].
+  { rewrite rne53_small by lia. lia. }
+  rewrite rne53_unfold by lia. cbv zeta. set (s := bitlen x - 53) in *.
   assert (Hxpos : 0 < x).
-  { destruct (Z.eq_dec x 0) as [E0|E0]; [|lia]. unfold s in Es. rewrite E0 in Es. cbn in Es. lia. }
+  { destruct (Z.eq_dec x 0) as [E0|E0]; [|lia]. unfold s in Hs. rewrite E0 in Hs. cbn in Hs. lia. }
   pose proof (bitlen_pos_spec x Hxpos) as [Hlo _].
   replace (bitlen x - 1) with ((s - 1) + 53) in Hlo by (unfold s; lia).
   rewrite Z.pow_add_r in Hlo by lia. change (2 ^ 53) with two53 in Hlo.
@@ -532,7 +546,9 @@ Proof.
   assert (HPw : P < w) by nia.
   pose proof (Z.div_mod x (2 * P) ltac:(lia)) as Hdm.
   pose proof (Z.mod_pos_bound x (2 * P) ltac:(lia)) as Hmb.
-  set (q := x / (2 * P)) in *. set (r := x mod (2 * P)) in *.
+  set (q := x / (2 * P)) in *.
+  assert (Er : x - q * (2 * P) = x mod (2 * P)) by lia.
+  rewrite Er. set (r := x mod (2 * P)) in *.
   destruct ((P <? r) || ((r =? P) && Z.odd q)) eqn:Eup.
   - assert (Hr : P <= r).
     { apply orb_true_iff in Eup as [E1|E1].
